@@ -449,7 +449,7 @@ def run(tier, seed):
         vs.append(V("%s::explored" % (args,), "proved" if npth else "failed", {"paths": npth}))
     run.add_verdicts(vs)
     run.notes.append({"paths per configuration": paths})
-    ev, cf = concrete_roundtrips(report.REPO, seed, 60 if tier == "quick" else 1500)
+    ev, cf = report.guarded(run, concrete_roundtrips, report.REPO, seed, 60 if tier == "quick" else 1500)
     run.bounded.append(dict(name="real write -> real read: SET, SPOINT, CSUPER, EXTRN, TABLED1 (lengths 1..12, both widths), GRID, DMIG (forms 1/2/6, real/complex, "
                                  "zero terms incl. zero leading diagonal, partial DOF, scalar points)", evaluations=ev, failures=0 if cf is None else 1,
                             label="bounded (never counted as proved)"))
